@@ -37,7 +37,7 @@ CHECKS = {
         note="Kernel divergences are seen only if they change the output of these inputs; AVX-512 needs a build with ENABLE_AVX512.",
         design="4 (C06)"),
     "C08": dict(category="exploration",
-        technique="trace validation against TLA+ spec Observe.tla: SVT decoder (internal pipeline 8/16 bit, film grain applied) vs libaom 3.6.0 on streams from a configuration-diverse corpus",
+        technique="trace validation against TLA+ spec Observe.tla: SVT decoder (internal pipeline 8/16 bit, film grain applied) vs libaom 3.6.0 on streams from a configuration-diverse corpus; plus the decoder's reference-picture management: TLA+ spec DecDpb.tla (buffer manager: reference counts, slot maps, show-existing) checked exhaustively by TLC and bound by full-state trace validation (DecDpbTrace.tla) of every decode",
         text="Observation equality per output picture, same order and count, no decoder error.",
         note="Only streams the SVT encoder can produce (no independent encoder offline); libaom via hand-declared ABI.", design="4 (C08)"),
     "C09": dict(category="model_checking",
